@@ -104,6 +104,7 @@ template <>
 struct K<asl::Array<Elem>>
 {
 	typedef asl::Array<Elem> H;
+	static bool dup(H& h) { h.dup(); return true; }
 	static const char* name() { return "Array"; }
 	static H make(int tag)
 	{
@@ -126,6 +127,7 @@ template <>
 struct K<asl::Map<int, Elem>>
 {
 	typedef asl::Map<int, Elem> H;
+	static bool dup(H& h) { h.dup(); return true; }
 	static const char* name() { return "Map"; }
 	static H make(int tag)
 	{
@@ -143,6 +145,7 @@ template <>
 struct K<asl::Dic<Elem>>
 {
 	typedef asl::Dic<Elem> H;
+	static bool dup(H& h) { h.dup(); return true; }
 	static const char* name() { return "Dic"; }
 	static H make(int tag)
 	{
@@ -160,6 +163,7 @@ template <>
 struct K<asl::HashMap<int, Elem>>
 {
 	typedef asl::HashMap<int, Elem> H;
+	static bool dup(H& h) { h.dup(); return true; }
 	static const char* name() { return "HashMap"; }
 	static H make(int tag)
 	{
@@ -177,6 +181,7 @@ template <>
 struct K<asl::HashDic<Elem>>
 {
 	typedef asl::HashDic<Elem> H;
+	static bool dup(H& h) { h.dup(); return true; }
 	static const char* name() { return "HashDic"; }
 	static H make(int tag)
 	{
@@ -194,6 +199,7 @@ template <>
 struct K<asl::Shared<Payload>>
 {
 	typedef asl::Shared<Payload> H;
+	static bool dup(H&) { return false; } // no in-place detach in this class
 	static const char* name() { return "Shared"; }
 	static H make(int tag) { return H(new Payload(tag)); }
 	static H clone(const H& h) { return h.clone(); }
@@ -205,6 +211,7 @@ template <>
 struct K<Obj>
 {
 	typedef Obj H;
+	static bool dup(H&) { return false; } // no in-place detach in this class
 	static const char* name() { return "SmartObject"; }
 	static H make(int tag) { return Obj(tag); }
 	// SmartObject clone() is outside C12's statement (copy/assign/drop): a clone starts with a copy of the
@@ -218,6 +225,7 @@ template <>
 struct K<asl::Socket>
 {
 	typedef asl::Socket H;
+	static bool dup(H&) { return false; } // no in-place detach in this class
 	static const char* name() { return "Socket"; }
 	static H make(int) { return asl::Socket(); }
 	static H clone(const H& h) { return asl::Socket(); }
@@ -227,7 +235,7 @@ struct K<asl::Socket>
 };
 
 // ---------------------------------------------------------------- the handle scenario
-// ops: h(thread, kind, dst, src)   kind: 0 copy 1 assign 2 fresh 3 drop 4 clone 5 read
+// ops: h(thread, kind, dst, src)   kind: 0 copy 1 assign 2 fresh 3 drop 4 clone 5 read 6 dup (detach in place)
 const int SLOTS = 3;
 
 template <class H>
@@ -252,7 +260,7 @@ struct Worker
 	{
 		for (auto& o : ops)
 		{
-			int kind = (int)(std::abs(o.arg(1)) % 6), d = (int)(std::abs(o.arg(2)) % SLOTS), s = (int)(std::abs(o.arg(3)) % SLOTS);
+			int kind = (int)(std::abs(o.arg(1)) % 7), d = (int)(std::abs(o.arg(2)) % SLOTS), s = (int)(std::abs(o.arg(3)) % SLOTS);
 			switch (kind)
 			{
 			case 0:
@@ -291,6 +299,11 @@ struct Worker
 				if (slot[s] && !K<H>::read(*slot[s]))
 					badRead = true;
 				break;
+			case 6:
+				// "makes this array independent of others": the handle leaves the shared object and owns a private copy
+				if (slot[s] && K<H>::dup(*slot[s]))
+					obj[s] = (tidx + 1) * 1000 + nextObj++;
+				break;
 			}
 			opsDone = opsDone + 1;
 		}
@@ -312,7 +325,7 @@ void genHandles(Prng& r, Plan& p, int tier)
 		for (int i = 0; i < n; i++)
 		{
 			// bias: most ops touch slot 0, which holds the shared object
-			int kind = (int)r.below(6);
+			int kind = (int)r.below(7);
 			int d = r.below(2) ? 0 : (int)r.below(SLOTS), s = r.below(2) ? 0 : (int)r.below(SLOTS);
 			p.ops.push_back(op("h", {t, kind, d, s}));
 		}
